@@ -8,6 +8,16 @@ from .engine import (I, R, B, A1, A2, CPLX, cmul, fresh, OutOfFragment, Contract
 TYPE_ARR = {'int1': (1, 'int'), 'int2': (2, 'int'), 'real1': (1, 'real'), 'cplx1': (1, 'cplx'), 'int3': (3, 'int')}
 
 
+class Tag(object):
+    """non-value expression results: modules, bound methods, functions"""
+    def __init__(self, kind, *data):
+        self.kind = kind
+        self.data = data
+
+    def __getitem__(self, k):
+        return self.kind if k == 0 else self.data[k - 1]
+
+
 def fresh_array(prefix, ndim, elem='int', shape=None):
     term = fresh(prefix, arr_sort(ndim, elem))
     if shape is None:
@@ -740,9 +750,9 @@ class FuncVerifier(object):
         if n.id in ('True', 'False', 'None'):
             return {'True': z3.BoolVal(True), 'False': z3.BoolVal(False), 'None': None}[n.id]
         if n.id in ('numpy', 'np'):
-            return ('module', 'numpy')
+            return Tag('module', 'numpy')
         if n.id in self.module_funcs:
-            return ('func', n.id)
+            return Tag('func', n.id)
         raise OutOfFragment('unknown name %r' % n.id, n)
 
     def ex_Tuple(self, n, st):
@@ -825,33 +835,33 @@ class FuncVerifier(object):
 
     def ex_Attribute(self, n, st):
         v = self.pev(n.value, st)
-        if isinstance(v, tuple) and v and v[0] == 'module':
-            return ('module', v[1] + '.' + n.attr)
+        if isinstance(v, Tag) and v.kind == 'module':
+            return Tag('module', v[1] + '.' + n.attr)
         if isinstance(v, (Ref, View)) and not (isinstance(v, Ref) and isinstance(st.heap[v.loc], (Obj, ListObj))):
             av = self.deref(v, st)
             if n.attr == 'shape':
                 return tuple(av.shape)
             if n.attr in ('copy', 'all', 'any', 'tolist', 'astype'):
-                return ('method', v, n.attr)
+                return Tag('method', v, n.attr)
             if n.attr == 'dtype':
-                return ('dtype', av.elem)
+                return Tag('dtype', av.elem)
             raise OutOfFragment('array attribute .%s' % n.attr, n)
         if isinstance(v, ArrCmp):
             if n.attr in ('all', 'any'):
-                return ('method', v, n.attr)
+                return Tag('method', v, n.attr)
         if isinstance(v, Ref) and isinstance(st.heap[v.loc], Obj):
             o = st.heap[v.loc]
             if n.attr in o.fields:
                 return o.fields[n.attr]
-            return ('omethod', v, n.attr)
+            return Tag('omethod', v, n.attr)
         if isinstance(v, Ref) and isinstance(st.heap[v.loc], ListObj):
-            return ('lmethod', v, n.attr)
+            return Tag('lmethod', v, n.attr)
         raise OutOfFragment('attribute .%s of %r' % (n.attr, type(v).__name__), n)
 
     def ex_Subscript(self, n, st):
         v = self.pev(n.value, st)
         sl = n.slice
-        if isinstance(v, tuple) and not (v and v[0] in ('module', 'method')):
+        if isinstance(v, tuple):
             k = self.pev(sl, st)
             ks = z3.simplify(as_num(k))
             if not z3.is_int_value(ks):
@@ -891,16 +901,16 @@ class FuncVerifier(object):
     # ------------------------------------------------------------------ calls
     def ex_Call(self, n, st):
         f = self.pev(n.func, st) if not isinstance(n.func, ast.Name) or n.func.id in st.env or n.func.id in self.module_funcs \
-            else ('builtin', n.func.id)
-        if n.keywords and not (isinstance(f, tuple) and f[0] == 'module'):
+            else Tag('builtin', n.func.id)
+        if n.keywords and not (isinstance(f, Tag) and f.kind == 'module'):
             raise OutOfFragment('keyword arguments in a call', n)
-        if isinstance(f, tuple) and f[0] == 'builtin':
+        if isinstance(f, Tag) and f.kind == 'builtin':
             return self.call_builtin(f[1], n, st)
-        if isinstance(f, tuple) and f[0] == 'module':
+        if isinstance(f, Tag) and f.kind == 'module':
             return self.call_numpy(f[1], n, st)
-        if isinstance(f, tuple) and f[0] == 'method':
+        if isinstance(f, Tag) and f.kind == 'method':
             return self.call_method(f[1], f[2], n, st)
-        if isinstance(f, tuple) and f[0] == 'lmethod':
+        if isinstance(f, Tag) and f.kind == 'lmethod':
             lst = st.heap[f[1].loc]
             if f[2] == 'append' and len(n.args) == 1:
                 v = self.pev(n.args[0], st)
@@ -909,7 +919,7 @@ class FuncVerifier(object):
                 st.heap[f[1].loc] = ListObj(lst.items + [v])
                 return None
             raise OutOfFragment('list method .%s' % f[2], n)
-        if isinstance(f, tuple) and f[0] == 'func':
+        if isinstance(f, Tag) and f.kind == 'func':
             args = [self.pev(a, st) for a in n.args]
             return self.call_contract(f[1], args, n, st)
         raise OutOfFragment('call of %r' % (f,), n)
